@@ -715,7 +715,7 @@ impl Formatter<'_> {
                     for (j, word) in line.iter().enumerate() {
                         self.format_word(word, depth);
                         if word_is_multiline(&word.value)
-                            && j < words.len() - 1
+                            && j < line.len() - 1
                             && !line.first().is_some_and(|first| {
                                 matches!(
                                     first.value,
